@@ -5,38 +5,64 @@ def _extra(stats, cov):
     produced = stats.get('plans_produced', 0)
     validated = stats.get('plans_validated', 0)
     accepted = stats.get('plans_accepted', 0)
-    return dict(programs=produced, disagreements_checked=validated,
-                plans_produced=produced, distinct_plans_validated=validated, plans_rejected=validated - accepted)
+    # execution stream: the Consume logs of the real Pipeline.Run judged by the extracted exec_ok
+    # (proved sound: C02_exec_checker_sound); two recording items = two logs per run
+    runs = stats.get('runs', 0)
+    logs = stats.get('logs_judged', 0)
+    return dict(programs=produced + runs, disagreements_checked=validated + logs,
+                plans_produced=produced, distinct_plans_validated=validated, plans_rejected=validated - accepted,
+                pipeline_runs=runs, consume_logs_judged=logs, consume_logs_rejected=logs - stats.get('logs_accepted', 0),
+                consume_records=stats.get('consume_records', 0))
 
 
 CONFIG = dict(
     level='translation_validation',
-    streams=[dict(harness='c02', driver='c02', shrink_field='edges')],
-    rule='one case = one commit graph (n commits, parent edges in ParentHashes order incl. duplicate, redundant and dangling '
+    streams=[dict(harness='c02', driver='c02', shrink_field='edges'),
+             dict(harness='c02run', driver='c02', driver_args=['run'], shrink_field='edges')],
+    rule='PLAN stream (c02): one case = one commit graph (n commits, parent edges in ParentHashes order incl. duplicate, redundant and dangling '
          'edges) + one assignment of hashes (ranks: byte order of the hashes, drives every tie-break) + one slice order; the real '
          'prepareRunPlan(commits, 0) plans it twice (second time on the reversed slice; Go map order varies) and each plan is '
          'validated by the extracted plan_ok. Generators: every DAG (connected and disconnected) on <=5 commits x every hash '
          'order; thorough: every connected DAG on 6 commits x every 6th hash order (flag -full of the harness: all 720); samples '
          'of 6/7-commit DAGs; random histories up to 14 and up to 40 commits (several roots, octopus merges, criss-cross, '
          'duplicate/redundant edges, disconnected components, parents outside the set). Non-trivial = some commit has two '
-         'distinct parents; distinct = distinct (n, ranks, order, edges).',
+         'distinct parents; distinct = distinct (n, ranks, order, edges). '
+         'EXECUTION stream (c02run): one case = one commit graph (same format; the hashes are those of a real in-memory go-git '
+         'repository, salt = message salt that varies them) + hibernation distance 0..3 + slice order; the real '
+         'NewPipeline/AddItem/Initialize/Run is executed with two stateful recording items (fork by ForkCopyPipelineItem + deep '
+         'copy / by hand; Merge = union for every participant) and the log of every Consume (commit, set seen before, commit '
+         'consumed last) is judged against the graph alone by the extracted exec_ok. Generators: every DAG on <=5 commits x '
+         'distance 0..3 (thorough: every DAG on 6 commits); 1..6 unrelated root lines merged together step by step (two-parent '
+         'and octopus merges, criss-cross, redundant and duplicate edges, several children per commit), random topological '
+         'numbering; the random histories of the plan stream up to 14 / 40 commits; shapes of synth.GenHist.',
     exhaustive_note='all DAGs on <=5 topologically numbered commits (connected: 88 299 graph x hash-order cases, disconnected: '
-                    '36 170) x all hash orders; thorough adds all connected DAGs on 6 commits x every sixth of the 720 hash orders',
+                    '36 170) x all hash orders; thorough adds all connected DAGs on 6 commits x every sixth of the 720 hash orders; '
+                    'execution stream: all DAGs on <=5 commits x hibernation distance 0..3 (4 636 runs), thorough adds all DAGs on 6 commits',
     assumptions=['commits are numbered so that parents have smaller numbers (every finite DAG has such a numbering; the '
                  'validator checks it) and the graph given to the validator is the history restricted to the analysed commit set',
                  'prepareRunPlan reads only Hash and ParentHashes of a commit (fabricated commits are used)',
                  'no Gallina mirror of the planner: C02 is decided per produced plan (translation validation), not by a proof '
                  'about buildDag/mergeDag/collapseFastForwards/generatePlan themselves'],
-    trusted_base=['the abstract executor coq/theories/Plan/Exec.v as the meaning of a plan (hand-written from the branch '
-                  'bookkeeping of Pipeline.Run; Run itself is not executed by this check)',
-                  'the declarative specification coq/theories/Plan/Spec.v + Graph.v (C02_spec) as the reading of the property text'],
-    level_text='translation validation: every plan produced by the real planner on the explored graphs is accepted by a '
-               'validator extracted from Coq and proved sound against the declarative C02 specification for all graphs and plans',
-    level_note='Proved in Coq (no axioms): plan_ok g p = true -> C02_spec g p for every graph and plan. Not proved: that the Go '
-               'planner always produces an accepted plan - that is checked per plan (exhaustively for <=5 commits, every 6th '
-               'hash order for 6 commits, randomly up to 40 commits). Trusted: Coq kernel, extraction, the OCaml driver, the Go '
-               'harness, and Exec.v/Spec.v as the formal reading of Pipeline.Run and of the property.',
-    technique='Coq-verified plan validator (translation validation) run on the outputs of the real planner',
+    trusted_base=['plan stream: the abstract executor coq/theories/Plan/Exec.v as the meaning of a plan (hand-written from the '
+                  'branch bookkeeping of Pipeline.Run); the execution stream does not depend on it: there Run itself is executed',
+                  'the declarative specifications coq/theories/Plan/Spec.v + Graph.v (C02_spec) and ExecCheck.v (exec_spec) as the '
+                  'reading of the property text',
+                  'execution stream: the recording items of harness/cmd/c02run (their Fork copies the state, their Merge gives every '
+                  'participant the union, Consume logs the state before the call) as the observer of what a stateful item sees'],
+    level_text='translation validation at two levels: every plan produced by the real planner, and every Consume log produced by '
+               'the real Pipeline.Run executing its own plan on synthetic repositories, is accepted by a validator extracted from '
+               'Coq and proved sound against the declarative C02 specification for all graphs, plans and logs',
+    level_note='Proved in Coq (no axioms): plan_ok g p = true -> C02_spec g p for every graph and plan; exec_ok g log = true -> '
+               'exec_spec g log for every graph and Consume log (consumed commits = the retained component; every Consume on '
+               'exactly Anc(parent) with that parent last or on a fresh instance for a root; once per non-redundant parent). Not '
+               'proved: that the Go planner always produces an accepted plan and that Pipeline.Run always executes it faithfully '
+               '- both are checked per output (plans: exhaustively for <=5 commits, every 6th hash order for 6 commits, randomly up '
+               'to 40 commits; executions: all DAGs on <=5 commits x hibernation distance 0..3, generated multi-root / octopus / '
+               'criss-cross histories up to 40 commits). The execution log is judged against the commit graph only (the planner is '
+               'not deterministic across calls). Trusted: Coq kernel, extraction, the OCaml driver, the Go harnesses incl. the '
+               'recording items, and Exec.v/Spec.v/ExecCheck.v as the formal reading of Pipeline.Run and of the property.',
+    technique='Coq-verified validators (translation validation) run on the plans of the real planner and on the Consume logs of '
+              'the real Pipeline.Run',
     extra_coverage=_extra,
     search_seconds=60,
 )
